@@ -116,7 +116,7 @@ package memfs
 //@   modifies nothing
 
 //@ func (*fileNode).truncate
-//@   requires wheld(fn.mu)
+//@   requires[C08] wheld(fn.mu)
 //@   requires size >= 0 && size < 4611686018427387904
 //@   modifies fn.data, fn.data[*]
 //@   ensures[C02] len(fn.data) == size
@@ -124,7 +124,7 @@ package memfs
 //@   ensures[C02] forall i int :: len(old(fn.data)) <= i && i < size ==> fn.data[i] == 0
 
 //@ func (*fileNode).size
-//@   requires held(fn.mu)
+//@   requires[C08] held(fn.mu)
 //@   ensures[C02] r0 == len(fn.data)
 //@   modifies nothing
 
@@ -136,7 +136,7 @@ package memfs
 // ---- memfs_internal.go: permission checks and creation formulas (C03) --------------------------
 
 //@ func (*baseNode).checkPermission
-//@   requires held(bn.mu)
+//@   requires[C08] held(bn.mu)
 //@   mode bv
 //@   requires u != nil
 //@   let cls := bn.uid == u.Uid() ? avfs.OpenMode(bn.mode) >> 6 : (bn.gid == u.Gid() ? avfs.OpenMode(bn.mode) >> 3 : avfs.OpenMode(bn.mode))
@@ -145,19 +145,19 @@ package memfs
 //@   modifies nothing
 
 //@ func (*baseNode).setModTime
-//@   requires wheld(bn.mu)
+//@   requires[C08] wheld(bn.mu)
 //@   requires u != nil
 //@   ensures[C03] r0 == (bn.uid == u.Uid() || u.IsAdmin())
 //@   ensures[C03] !r0 ==> bn.mtime == old(bn.mtime)
 //@   modifies bn.mtime
 
 //@ func (*baseNode).setOwner
-//@   requires wheld(bn.mu)
+//@   requires[C08] wheld(bn.mu)
 //@   ensures[C03] bn.uid == uid && bn.gid == gid
 //@   modifies bn.uid, bn.gid
 
 //@ func (*dirNode).setMode
-//@   requires wheld(dn.mu)
+//@   requires[C08] wheld(dn.mu)
 //@   mode bv
 //@   requires u != nil
 //@   ensures[C03] r0 == (dn.uid == u.Uid() || u.IsAdmin())
@@ -166,7 +166,7 @@ package memfs
 //@   modifies dn.mode
 
 //@ func (*fileNode).setMode
-//@   requires wheld(fn.mu)
+//@   requires[C08] wheld(fn.mu)
 //@   mode bv
 //@   requires u != nil
 //@   ensures[C03] r0 == (fn.uid == u.Uid() || u.IsAdmin())
@@ -180,19 +180,19 @@ package memfs
 
 //@ func (*MemFS).createDir
 //@   mode bv
-//@   requires parent != nil && wheld(parent.mu)
+//@   requires[C08] parent != nil && wheld(parent.mu)
 //@   ensures[C03] fresh(r0) && r0.mode == vfs.dirMode | (perm & avfs.FileModeMask &^ vfs.umask) && r0.uid == vfs.user.Uid() && r0.gid == vfs.user.Gid()
 //@   ensures[C05] dom(parent.children, name) && parent.children[name] is *dirNode && parent.children[name].(*dirNode) == r0
 
 //@ func (*MemFS).createFile
 //@   mode bv
-//@   requires parent != nil && wheld(parent.mu)
+//@   requires[C08] parent != nil && wheld(parent.mu)
 //@   ensures[C03] fresh(r0) && r0.mode == vfs.fileMode | (perm & avfs.FileModeMask &^ vfs.umask) && r0.uid == vfs.user.Uid() && r0.gid == vfs.user.Gid()
 //@   ensures[C05] r0.nlink == 1 && dom(parent.children, name) && parent.children[name] is *fileNode && parent.children[name].(*fileNode) == r0
 
 //@ func (*MemFS).createSymlink
 //@   mode bv
-//@   requires parent != nil && wheld(parent.mu)
+//@   requires[C08] parent != nil && wheld(parent.mu)
 //@   ensures[C03] fresh(r0) && r0.mode == fs.ModeSymlink | fs.ModePerm && r0.uid == vfs.user.Uid() && r0.gid == vfs.user.Gid()
 //@   ensures[C04,C05] r0.link == link && dom(parent.children, name) && parent.children[name] is *symlinkNode && parent.children[name].(*symlinkNode) == r0
 
@@ -235,32 +235,32 @@ package memfs
 //@   modifies nothing
 
 //@ func (*dirNode).addChild
-//@   requires wheld(dn.mu) && child != nil
+//@   requires[C08] wheld(dn.mu) && child != nil
 //@   modifies dn.children, dn.children[*]
 //@   ensures[C05] dom(dn.children, name) && dn.children[name] == child
 //@   ensures[C05] forall n string :: n != name ==> dom(dn.children, n) == old(dom(dn.children, n)) && dn.children[n] == old(dn.children[n])
 
 //@ func (*dirNode).removeChild
-//@   requires wheld(dn.mu)
+//@   requires[C08] wheld(dn.mu)
 //@   modifies dn.children[*]
 //@   ensures[C05] !dom(dn.children, name)
 //@   ensures[C05] forall n string :: n != name ==> dom(dn.children, n) == old(dom(dn.children, n)) && dn.children[n] == old(dn.children[n])
 
 //@ func (*fileNode).delete
-//@   requires wheld(fn.mu)
+//@   requires[C08] wheld(fn.mu)
 //@   ensures[C05] fn.nlink == old(fn.nlink) - 1
 //@   modifies fn.nlink, fn.data
 //@ func (*dirNode).delete
-//@   requires wheld(dn.mu)
+//@   requires[C08] wheld(dn.mu)
 //@   modifies dn.children
 //@ func (*symlinkNode).delete
-//@   requires wheld(sn.mu)
+//@   requires[C08] wheld(sn.mu)
 //@   modifies sn.link
 //@ func (*dirNode).size
-//@   requires held(dn.mu)
+//@   requires[C08] held(dn.mu)
 //@   modifies nothing
 
 //@ func (*dirNode).dirNames
-//@   requires held(dn.mu)
+//@   requires[C08] held(dn.mu)
 //@ func (*dirNode).dirEntries
-//@   requires held(dn.mu)
+//@   requires[C08] held(dn.mu)
